@@ -14,6 +14,8 @@ format on all queries, answers == what the listed elements imply, constructor ==
 """
 import itertools
 
+from harness import parser_common as pc
+
 ID = "C06"
 DESIGN_REF = "6/C06"
 TECHNIQUE = ("Lean 4 proofs over all operation histories and all base chains about an executable model of "
@@ -31,14 +33,36 @@ LEVEL_TEXT = ("Proved in Lean for the model, for every history of builder calls 
               "under ArgsFormat(elements, base) and ArgsFormatBuilder(base)...format; built_bases_inv for chains of "
               "element-list constructors), so reachable_inv_decided / ctor_inv_decided / built_consistent have decidable "
               "hypotheses only.  "
+              "Bridge to the parser properties (C01/C02/C05/C13): the flattened view parse() works on is a Lean function "
+              "of the builder model's format (Model/Flatten.lean flattenRec: command names, arguments base-first, options "
+              "with the base; the attributes only the parser reads - types, nullability, defaults, option value modes - "
+              "are a parameter, so every statement holds for every choice of them), and for every format satisfying the "
+              "invariant, hence for every format that can be built, the format hypotheses of the parser theorems are "
+              "PROVED instead of decided per case: the multi-valued argument is last (flat_multi_last), the argument keys "
+              "incl. the command-name pseudo keys are distinct (flat_keys_nodup, flat_arg_names_nodup), every option is "
+              "found by the parser's lookup under its long name and under its short name and a name identifies at most "
+              "one option (flat_long_names, flat_short_names, flat_names_identify_at_most_one, flat_short_ok, "
+              "built_short_ok, built_option_names); corollaries instantiate the parser theorems with these hypotheses "
+              "discharged for any Built format (built_positionals_in_order, built_command_names_realigned, "
+              "built_fault_surplus_positional, built_fault_value_for_flag, built_fault_required_value_missing, "
+              "built_no_foreign_exception).  Left as hypotheses because the builder model does not carry the "
+              "information: the C07 option-mode normal form and the defaults clause of FmtWF (flat_fmt_wf states exactly "
+              "these two), and that a long name contains no '='.  "
               "The model is tied to the "
               "code by comparing, after every operation, the exception class and all public queries of builder and "
-              "built format (ordered listings included) on bounded-exhaustive and random operation sequences.")
+              "built format (ordered listings included) on bounded-exhaustive and random operation sequences; the "
+              "flattening is tied by the driver entry c06.flatten: after every call (and for every base level, constructor "
+              "and config format) the model's flattened format is compared with parser_common.flatten of the REAL format "
+              "(the reading C01/C02/C05 use), restricted to the attributes the builder model carries.")
 LEVEL_NOTE = ("Trusted: Lean kernel + propext/Quot.sound/Classical.choice; the hand-written model is validated by the "
               "correspondence run only (modelled, not verified).  Element constructors (name validation, flag "
               "normal forms) are C07's subject: the theorems need what they guarantee (long names/aliases have at "
               "least two characters, short names/aliases exactly one) - no longer assumed: decided by Op.wfB / Elem.wfB "
-              "on every real element of every case (c06.wf) and compared with true.")
+              "on every real element of every case (c06.wf) and compared with true.  The bridge theorems are about "
+              "flattenRec of the MODEL's format; that the real parse() reads the same three listings is the "
+              "correspondence of C01/C02 (their flatten) plus the c06.flatten comparison here, restricted to command "
+              "names/aliases, argument name/required/multi and option long/short names; option value modes, types, "
+              "nullability and defaults are outside the builder model (universally quantified parameters aa/oa).")
 LEAN_MODULES = ["Clikit.Props.C06"]
 REQUIRED_THEOREMS = ["Clikit.Props.C06.step_atomic_inv", "Clikit.Props.C06.reachable_inv",
                      "Clikit.Props.C06.format_agrees", "Clikit.Props.C06.format_inv",
@@ -49,7 +73,18 @@ REQUIRED_THEOREMS = ["Clikit.Props.C06.step_atomic_inv", "Clikit.Props.C06.reach
                      "Clikit.Props.C06.listing_order", "Clikit.Props.C06.lookups_raise_documented_only",
                      "Clikit.Props.C06.wf_decides", "Clikit.Props.C06.built_bases_inv",
                      "Clikit.Props.C06.reachable_inv_decided", "Clikit.Props.C06.ctor_inv_decided",
-                     "Clikit.Props.C06.built_inv", "Clikit.Props.C06.built_consistent"]
+                     "Clikit.Props.C06.built_inv", "Clikit.Props.C06.built_consistent",
+                     "Clikit.Props.C06.flat_multi_last", "Clikit.Props.C06.flat_keys_nodup",
+                     "Clikit.Props.C06.flat_arg_names_nodup", "Clikit.Props.C06.flat_long_names",
+                     "Clikit.Props.C06.flat_short_names", "Clikit.Props.C06.flat_names_identify_at_most_one",
+                     "Clikit.Props.C06.flat_long_ok", "Clikit.Props.C06.flat_short_ok", "Clikit.Props.C06.flat_fmt_wf",
+                     "Clikit.Props.C06.built_names_validated", "Clikit.Props.C06.built_option_names",
+                     "Clikit.Props.C06.built_short_ok", "Clikit.Props.C06.built_long_ok",
+                     "Clikit.Props.C06.built_flat_wf", "Clikit.Props.C06.built_positionals_in_order",
+                     "Clikit.Props.C06.built_command_names_realigned",
+                     "Clikit.Props.C06.built_fault_surplus_positional", "Clikit.Props.C06.built_fault_value_for_flag",
+                     "Clikit.Props.C06.built_fault_required_value_missing",
+                     "Clikit.Props.C06.built_no_foreign_exception"]
 RULE = ("cases = (0-2 base levels built with ArgsFormat(elements, base)) x (sequence of builder calls); quick: every "
         "sequence of length <= 3 over a reduced pool of 14 calls on 4 base configurations, then random sequences of "
         "length 4-7 over the full pool (20 elements with colliding long/short names and aliases, set_*/add_* with "
@@ -58,6 +93,8 @@ RULE = ("cases = (0-2 base levels built with ArgsFormat(elements, base)) x (sequ
 TRUSTED_BASE = [
     "Lean 4.33 kernel; axioms propext, Classical.choice, Quot.sound only (audited per theorem on every run)",
     "lean/Clikit/Model/Builder.lean is hand-written: its fidelity is what the correspondence run sampled",
+    "lean/Clikit/Model/Flatten.lean (flattenRec) is hand-written: tied by c06.flatten to parser_common.flatten of the "
+    "real formats on the attributes the builder model carries",
     "harness/props/c06.py: generators, the probe list (every public has_*/get_* with include_base True/False over all "
     "names of the pool and positions -2..len+1), canonicalisation of elements to tags",
     "element constructors (Option, CommandOption, Argument, CommandName) are C07's subject",
@@ -349,7 +386,26 @@ def _both(builder, objs):
     return d
 
 
-def _build_bases(bases, objs):
+def _flat(fmt):
+    """the flattened view the parser works on, read from the REAL format object by the harness of C01/C02/C05
+    (`parser_common.flatten`), restricted to what the builder model carries: command names with aliases, argument
+    names with required / multi in listing order, option long / short names in listing order (bridge theorems
+    flat_* / built_* of Props/C06.lean; model side: driver entry c06.flatten)"""
+    r = _call(pc.flatten, fmt)
+    if r[0] == "err":
+        return {"err": r[1]}
+    fl = r[1]
+    return {"cmds": [{"name": c["name"], "aliases": list(c["aliases"])} for c in fl["cmds"]],
+            "args": [{"name": a["name"], "required": a["required"], "multi": a["multi"]} for a in fl["args"]],
+            "opts": [{"long": o["long"], "short": o["short"]} for o in fl["opts"]]}
+
+
+def _flat_of_builder(builder):
+    r = _call(lambda: builder.format)
+    return _flat(r[1]) if r[0] == "ok" else {"err": r[1]}
+
+
+def _build_bases(bases, objs, flats=None):
     from clikit.api.args.format import ArgsFormat
     base = None
     snaps = []
@@ -359,6 +415,8 @@ def _build_bases(bases, objs):
             return None, {"at": i, "err": r[1]}, snaps
         base = r[1]
         snaps.append(_snapshot(base, objs))
+        if flats is not None:
+            flats.append(_flat(base))
     return base, "ok", snaps
 
 
@@ -375,20 +433,25 @@ def run_impl(case):
     kind = case["kind"]
     if kind == "config":
         return _run_config(case, objs)
-    base, st, snaps = _build_bases(case["bases"], objs)
+    flats = []
+    base, st, snaps = _build_bases(case["bases"], objs, flats)
     if st != "ok":
-        return {"bases": st}
-    obs = {"bases": "ok", "base_snaps": snaps}
+        return {"bases": st, "flat": {"bases": flats}}
+    obs = {"bases": "ok", "base_snaps": snaps, "flat": {"bases": flats}}
     if kind == "run":
         builder = ArgsFormatBuilder(base)
         obs["init"] = _both(builder, objs)
+        obs["flat"]["init"] = _flat_of_builder(builder)
         steps = []
+        fsteps = []
         for op in case["ops"]:
             r = _apply(builder, op, objs)
             d = {"out": "ok" if r[0] == "ok" else r[1]}
             d.update(_both(builder, objs))
             steps.append(d)
+            fsteps.append(_flat_of_builder(builder))
         obs["steps"] = steps
+        obs["flat"]["steps"] = fsteps
         return obs
     # ctor: ArgsFormat(elements, base) directly, and (for the oracle) the same elements added one by one
     els = [objs.get(e) for e in case["elements"]]
@@ -396,6 +459,7 @@ def run_impl(case):
     obs["ctor"] = "ok" if r[0] == "ok" else r[1]
     if r[0] == "ok":
         obs["f"] = _snapshot(r[1], objs)
+    obs["flat"]["f"] = _flat(r[1]) if r[0] == "ok" else None
     builder = ArgsFormatBuilder(base)
     seq = "ok"
     for e, o in zip(case["elements"], els):
@@ -415,6 +479,7 @@ def _run_config(case, objs):
     from clikit.api.args.format import Argument
     from clikit.api.config.command_config import CommandConfig
     levels = []
+    flats = []
     base = None
     for lv in case["levels"]:
         nm = lv["name"]
@@ -437,7 +502,8 @@ def _run_config(case, objs):
             break
         base = r[1]
         levels.append({"adds": adds, "build": "ok", "f": _snapshot(base, objs)})
-    return {"levels": levels}
+        flats.append(_flat(base))
+    return {"levels": levels, "flat": {"levels": flats}}
 
 
 # --------------------------------------------------------------------------- model side
@@ -486,24 +552,30 @@ def model_requests(case):
     common = {"names": PROBE_NAMES, "idx": PROBE_IDX}
     # the hypotheses `wf` of the theorems (Props.C06.wf_decides), decided by the model on the real element objects
     wf = {"m": "c06.wf", "elems": _real_elements(case)}
+    # the flattened view of the model's formats of the case (Model/Flatten.lean `flattenRec`, the subject of the
+    # bridge theorems), compared with `parser_common.flatten` of the REAL formats restricted to the same attributes
     if case["kind"] == "config":
-        return [dict(common, m="c06.config", levels=[
-            {"name": lv["name"], "anonymous": lv["anonymous"], "adds": [_strip(e) for e in lv["adds"]]}
-            for lv in case["levels"]]), wf]
+        levels = [{"name": lv["name"], "anonymous": lv["anonymous"], "adds": [_strip(e) for e in lv["adds"]]}
+                  for lv in case["levels"]]
+        return [dict(common, m="c06.config", levels=levels), wf,
+                {"m": "c06.flatten", "kind": "config", "levels": levels}]
     bases = [[_strip(e) for e in lvl] for lvl in case["bases"]]
     if case["kind"] == "run":
-        return [dict(common, m="c06.run", bases=bases, ops=[_strip_op(o) for o in case["ops"]],
-                     snap_all=bool(case["snap_all"])), wf]
-    return [dict(common, m="c06.ctor", bases=bases, elements=[_strip(e) for e in case["elements"]]), wf]
+        ops = [_strip_op(o) for o in case["ops"]]
+        return [dict(common, m="c06.run", bases=bases, ops=ops, snap_all=bool(case["snap_all"])), wf,
+                {"m": "c06.flatten", "kind": "run", "bases": bases, "ops": ops}]
+    elements = [_strip(e) for e in case["elements"]]
+    return [dict(common, m="c06.ctor", bases=bases, elements=elements), wf,
+            {"m": "c06.flatten", "kind": "ctor", "bases": bases, "elements": elements}]
 
 
 def model_obs(case, answers):
-    return dict(answers[0], wf=answers[1]["wf"])
+    return dict(answers[0], wf=answers[1]["wf"], flat=answers[2])
 
 
 def impl_view(case, obs):
     # every element the constructors accept is well formed (C07): the model's decision must be `true`
-    return dict(_impl_view(case, obs), wf=True)
+    return dict(_impl_view(case, obs), wf=True, flat=obs.get("flat"))
 
 
 def _impl_view(case, obs):
